@@ -53,12 +53,14 @@ def tlc_jobs(ctx, quick):
         else:
             for g in GROUPS + (['core'] if sp == 'pspace1' else []):
                 exp('d1-%s-%s' % (sp, g), sp, 1, g, xs='quick')
-            exp('d0-' + sp, sp, 0, 'all', xs='full')
+            for g in GROUPS:
+                exp('d0-%s-%s' % (sp, g), sp, 0, g, xs='full')
     lawspaces = ['rn2', 'discr2', 'power1'] if quick else fu.SPACES_2D
     for sp in lawspaces:
         for g in GROUPS:
+            deep = (not quick) and sp in ('rnw2', 'power1')
             jobs.append(('laws-%s-%s' % (sp, g), M, 'MC_FuncMachine_lawsConj.cfg',
-                         fu.fm_env(sp, 0 if quick else 1, g, 'conj', xset='tiny' if quick else 'quick'), 1))
+                         fu.fm_env(sp, 1 if deep else 0, g, 'conj', xset='tiny' if (quick or deep) else 'quick'), 1))
     if quick:
         exp('d2-rn2', 'rn2', 2, 'one', deep='one', xs='tiny')
     else:
@@ -444,6 +446,7 @@ def run(ctx):
     ctx.traces += sum(len(o['counts']) for o in douts)
     ctx.extra['trace_events_validated_by_tlc'] = len(events)
     ctx.extra['trace_events_rejected_by_tlc'] = len(fails)
+    fu.design_drift(ctx, design, ctx.extra.get('_ops', []))
     fu.uncovered_report(ctx, classes)
     ctx.exhaustive = True
 
